@@ -1382,6 +1382,21 @@ def std_model(I, p, fr, t, args):
         if n.endswith("_exact"):
             parts = [p_ for p_ in parts if len(p_.items) == k_]
         return Iter(parts)
+    if n in ("ends_with", "starts_with") and isinstance(d0, Vec) and len(args) > 1 and c.startswith("core::slice::"):
+        x_ = I.deref(args[1])
+        if isinstance(x_, Vec):
+            k_ = len(x_.items)
+            if k_ > len(d0.items):
+                return False
+            part = d0.items[len(d0.items) - k_:] if n == "ends_with" else d0.items[:k_]
+            res_ = True
+            for it_, y_ in zip(part, x_.items):
+                r_ = tri_eq(it_, y_, I)
+                if r_ is False:
+                    return False
+                if r_ is None:
+                    res_ = None
+            return res_ if res_ is not None else Unknown("%s on unknown elements" % n)
     if n == "contains" and isinstance(d0, Vec) and len(args) > 1 and c.startswith("core::slice::"):
         x_ = I.deref(args[1])
         res_ = False
